@@ -34,7 +34,11 @@ func startNotes() (cleanup func()) {
 	if os.Getenv("C07_NOTES") != "" {
 		return func() {} // worker process: the parent owns the file
 	}
-	dir, err := os.MkdirTemp("", "c07-notes-")
+	base := "/root/scratch"
+	if os.MkdirAll(base, 0o755) != nil {
+		base = "" // default temp dir
+	}
+	dir, err := os.MkdirTemp(base, "c07-notes-")
 	if err != nil {
 		return func() {}
 	}
